@@ -41,3 +41,43 @@ Example C13_unfixed_refuted :
   let s := mkLS (mkLP 1 1 1 5 3 1 1 1 1 1) {[ 9%N := v ]} ∅ {[ (0%N, 9%N) ]} ∅ ∅ ∅ ∅ 0 0 0 ∅ [] [] 0%N ∅ ∅ ∅ 0 0 0 in
   exists s', end_block s = Ok (s', [(9%N, 0%N)]).
 Proof. vm_compute. eexists. reflexivity. Qed.
+
+(* ---- for every reachable state ---- *)
+From Goat Require Import Proofs.LockingDerived Proofs.LockingDerivedLink Proofs.LockingActive.
+
+(* histories: any list of block operations (begin-block with any votes / evidence, any request list with
+   unsigned lock amounts, end-block, hand-over, account creation) from the empty state, slash fractions in
+   [0,1].  In every state they reach the ranking is well formed and the recorded set names existing
+   validators, so - as long as no pending validator is still recorded in the set (see DESIGN.md: a jailed
+   validator cannot be unjailed in the block that jailed it) - EndBlocker cannot fail and its updates are
+   exactly the acceptable changes. *)
+Theorem C13_reachable_ranking p rem goat gas acc ops :
+  0 <= lp_slash_down p <= one18 -> 0 <= lp_slash_double p <= one18 -> Forall wf_op ops ->
+  let s := lk_run (empty_lstate p rem goat gas acc) ops in
+  rank_wf s /\ (forall a q, l_set s !! a = Some q -> is_Some (l_val s !! a)) /\
+  (forall q a, (q, a) ∈ l_rank s <-> exists v, l_val s !! a = Some v /\ in_ranking_status (v_status v) = true /\ v_power v = q /\ (0 < q)%N).
+Proof.
+  intros H1 H2 W s. destruct (reachable_all p rem goat gas acc ops H1 H2 W) as [D [A M]].
+  split; [apply rank_spec_rank_wf, (di_rank _ D)|]. split; [exact M|]. exact (di_rank _ D).
+Qed.
+Print Assumptions C13_reachable_ranking.
+
+Theorem C13_reachable_refines p rem goat gas acc ops :
+  0 <= lp_slash_down p <= one18 -> 0 <= lp_slash_double p <= one18 -> Forall wf_op ops ->
+  let s := lk_run (empty_lstate p rem goat gas acc) ops in
+  (forall a v, l_val s !! a = Some v -> v_status v = Pending -> l_set s !! a = None) ->
+  exists s' ups, end_block s = Ok (s', ups) /\
+    l_set s' = apply_ups (l_set s) ups /\
+    NoDup (map fst ups) /\
+    (forall a q, In (a, q) ups -> (q = 0%N -> is_Some (l_set s !! a)) /\ (q <> 0%N -> In a (map snd (rank_desc s)))) /\
+    (forall a q, l_set s' !! a = Some q -> (0 < q)%N \/ l_set s !! a = Some q) /\
+    (* ... and the new recorded set is exactly the active validators with their power *)
+    (forall a, l_set s' !! a = (l_val s' !! a) ≫= (fun v => match v_status v with Active => Some (v_power v) | _ => None end)).
+Proof.
+  intros H1 H2 W s Hp. destruct (reachable_all p rem goat gas acc ops H1 H2 W) as [D [A M]]. fold s in D, A, M.
+  destruct (end_block_refines s (rank_spec_rank_wf s (di_rank _ D)) (conj M Hp)) as (s' & ups & E & R).
+  exists s', ups. split; [exact E|]. destruct R as (R1 & R2 & R3 & R4).
+  split; [exact R1|]. split; [exact R2|]. split; [exact R3|]. split; [exact R4|].
+  eapply end_block_set_spec; [apply (di_rank _ D)|exact A|exact E].
+Qed.
+Print Assumptions C13_reachable_refines.
